@@ -31,14 +31,25 @@ def load_known():
 def run_pack(pid, facts_path):
     ctx = Ctx(facts_path)
     rep = Report(pid)
-    for name, fn in props.PROPS[pid]["rules"]:
+    import re
+    for name, fn, only, drop in props.PROPS[pid]["rules"]:
+        tmp = Report(pid)
+        tmp.stats = rep.stats
         try:
-            fn(ctx, rep)
+            fn(ctx, tmp)
         except AnchorMissing as e:
-            rep.anchor_missing(name, e.what)
+            tmp.anchor_missing(name, e.what)
         except Exception as e:  # fail closed: a rule that cannot be evaluated is not a pass
             tb = traceback.format_exc().strip().splitlines()
-            rep.bad(name, "rule-crashed", "", "rule could not be evaluated: %s: %s | %s" % (type(e).__name__, e, " / ".join(tb[-4:])))
+            tmp.bad(name, "rule-crashed", "", "rule could not be evaluated: %s: %s | %s" % (type(e).__name__, e, " / ".join(tb[-4:])))
+        for it in tmp.items:
+            crashed = it.key.endswith(":rule-crashed") or ":anchor:" in it.key
+            if not crashed:
+                if only and not re.search(only, it.key):
+                    continue
+                if drop and re.search(drop, it.key):
+                    continue
+            rep.items.append(it)
     # positive controls on the fixture crate
     return ctx, rep
 
